@@ -369,6 +369,7 @@ def units(tier):
     from props.common import wrap as _wrap
     _wrap(us, "C13.registry.ids_never_reused", RG.unit_registry)
     _wrap(us, "C13.switches.simple_store", RG.unit_switch_store)
+    _wrap(us, "C13.file_names.defaults_embed_user_number_and_instance_id", RG.unit_default_file_names)
     return us
 
 
